@@ -210,7 +210,8 @@ func VString(v *ast.Value) string { panic("ghost") }
 
 //@ define sameDefault(x *ast.Value, y *ast.Value) bool = (x == nil) == (y == nil) && (x != nil ==> VString(x) == VString(y))
 //@ define sameArg(x *ast.ArgumentDefinition, y *ast.ArgumentDefinition) bool = x.Name == y.Name && TString(x.Type) == TString(y.Type) && sameDefault(x.DefaultValue, y.DefaultValue)
-//@ define sameSig(x *ast.FieldDefinition, y *ast.FieldDefinition) bool = TString(x.Type) == TString(y.Type) && len(x.Arguments) == len(y.Arguments) && forall(k, 0, len(x.Arguments), sameArg(x.Arguments[k], y.Arguments[k]))
+// (the default value of the field itself is part of the signature of an input field, B36)
+//@ define sameSig(x *ast.FieldDefinition, y *ast.FieldDefinition) bool = TString(x.Type) == TString(y.Type) && sameDefault(x.DefaultValue, y.DefaultValue) && len(x.Arguments) == len(y.Arguments) && forall(k, 0, len(x.Arguments), sameArg(x.Arguments[k], y.Arguments[k]))
 // gqlparser's schema validation rejects a type that declares a field name twice
 //@ define uniqueNames(l ast.FieldList) bool = forall(u, 0, len(l), forall(v, 0, u, l[v].Name != l[u].Name))
 // (the same statement with other variable names: as a hypothesis it is instantiated at more than the goal's own u, v)
@@ -222,7 +223,7 @@ func VString(v *ast.Value) string { panic("ghost") }
 //@ ensures[spec] result ==> sameSig(a, b)
 //@ ensures[spec-only] !result ==> !sameSig(a, b)
 //@ modifies fresh
-//@ loop 0 invariant[args] TString(a.Type) == TString(b.Type) && len(a.Arguments) == len(b.Arguments) && forall(k, 0, it, sameArg(a.Arguments[k], b.Arguments[k]))
+//@ loop 0 invariant[args] TString(a.Type) == TString(b.Type) && sameDefault(a.DefaultValue, b.DefaultValue) && len(a.Arguments) == len(b.Arguments) && forall(k, 0, it, sameArg(a.Arguments[k], b.Arguments[k]))
 //@ end
 
 //@ func mergeableFields
@@ -241,7 +242,7 @@ func VString(v *ast.Value) string { panic("ghost") }
 //@ loop 0 invariant[unique] uniqueNames(result) @using from, unique, unique-in, own
 //@ end
 
-//@ define copyOf(x *ast.FieldDefinition, y *ast.FieldDefinition) bool = x != nil && x.Name == y.Name && x.Type == y.Type && sameslice(x.Arguments, y.Arguments)
+//@ define copyOf(x *ast.FieldDefinition, y *ast.FieldDefinition) bool = x != nil && x.Name == y.Name && x.Type == y.Type && x.DefaultValue == y.DefaultValue && sameslice(x.Arguments, y.Arguments)
 
 //@ func mergeCustomObjectFields
 //@ props C05 C03
